@@ -540,7 +540,7 @@ def run_kani_units(scratch, units, tier, res, logdir):
 # slice extraction (shared by standalone-Kani and Verus units)
 # --------------------------------------------------------------------------
 
-def extract_between(text, start_rx, end_rx, what, include_end=True, start_skip=0):
+def extract_between(text, start_rx, end_rx, what, include_end=True, start_skip=0, end_extra=0):
     """Verbatim run of lines from the unique line matching start_rx (or `start_skip`
     lines below it) through the first following line matching end_rx."""
     lines = text.split("\n")
@@ -552,6 +552,7 @@ def extract_between(text, start_rx, end_rx, what, include_end=True, start_skip=0
             break
     else:
         raise Undecided("ANCHOR-LOST %s: slice end /%s/ not found" % (what, end_rx))
+    e += end_extra
     return "\n".join(lines[s:(e + 1 if include_end else e)]), s + 1, e + 1
 
 
@@ -631,7 +632,7 @@ def fill_extracts(tpl, u, files, anchors, rewrites_applied=None, rewrite_key="re
         text = files[rel].decode()
         what = u["id"] + "/" + ex["name"]
         if ex["kind"] == "slice":
-            body, l0, l1 = extract_between(text, ex["start"], ex["end"], what, not ex.get("end_exclusive", False), ex.get("start_skip", 0))
+            body, l0, l1 = extract_between(text, ex["start"], ex["end"], what, not ex.get("end_exclusive", False), ex.get("start_skip", 0), ex.get("end_extra", 0))
             anchors[u["id"]][ex["name"]] = "%s:%d-%d" % (rel, l0, l1)
         elif ex["kind"] == "fn":
             sig, body_, l0 = extract_fn(text, ex["anchor"], what)
